@@ -886,6 +886,19 @@ fn corpus(p: Prop) -> Vec<(SCase, LenStyle)> {
         app: Default::default(),
     };
     let mut v = vec![];
+    if p == Prop::C02 {
+        // witness of the repaired single-precision haversine (/repo 0c20377): three nearby vertices, every
+        // edge at least as long as the (double precision) great-circle distance between its ends; the
+        // two-edge route over m costs 243.01572, the direct edge 243.20391: Dijkstra and an A* whose
+        // estimate does not overshoot take the former
+        let mut c = base(vec![(0, 2, 243.20391), (0, 1, 170.48180), (1, 2, 72.53392)], 3);
+        c.coords = vec![(-104.99562, 39.719894), (-104.99761, 39.719963), (-104.99761, 39.720615)];
+        c.target = Some(2);
+        c.astar = Some(Some(1.0));
+        v.push((c.clone(), LenStyle::Metric));
+        c.astar = None;
+        v.push((c, LenStyle::Metric));
+    }
     match p {
         Prop::C01 | Prop::C03 => {
             // witness of the repaired edge-oriented defect: origin edge 0 (0->1), destination edge 1 (2->3),
